@@ -68,6 +68,46 @@ func c16Gen(t *rapid.T) C16Case {
 	return c
 }
 
+// preflightOutcome is the reference verdict for a debug-off preflight, put
+// together from the other reference models: origin allowed, private-network
+// request only if a PNA mode is on, method safelisted / listed / *, requested
+// headers absent / covered by * / approved by the reference list reader.
+// judged is false where the documentation leaves the answer open (malformed
+// Origin under allow-all, over-long origins, the known bracketed-host finding).
+func preflightOutcome(c Cfg, model OriginModel, r Req) (success, judged bool) {
+	origin, _ := firstVal(r, hOrigin)
+	if _, wf := SplitOrigin(origin); wf && !hostLenOK(origin) {
+		return false, false
+	}
+	if c.AllowAll() {
+		if _, wf := SplitOrigin(origin); !wf {
+			return false, false
+		}
+	} else if !model.DenotedBy(origin) {
+		return false, !bracketedHostEcho(model, origin)
+	}
+	if v, ok := firstVal(r, hACRPN); ok && v == "true" && !(c.PNA || c.PNANoCORS) {
+		return false, true
+	}
+	acrm, _ := firstVal(r, hACRM)
+	star, ms := listedMethods(c)
+	if !safelistedMethod(acrm) && !star && !contains(ms, acrm) {
+		return false, true
+	}
+	lines, has := r.Get(hACRH)
+	if !has {
+		return true, true
+	}
+	hstar, _, names := listedReqHdrs(c)
+	if hstar {
+		return true, true
+	}
+	if len(names) == 0 {
+		return false, true
+	}
+	return acrhApproved(names, Strs(lines)), true
+}
+
 func hasCanary(s string) bool {
 	l := strings.ToLower(s)
 	return strings.Contains(l, "canary")
@@ -102,6 +142,16 @@ func c16Check(c C16Case, rec *Recorder) *Disc {
 			return discf("preflight reached the wrapped handler: %s", where)
 		}
 		acao := resp.Hdr[hACAO]
+		// which preflights fail is itself part of the claim ("fails for any reason"):
+		// compare with the reference outcome
+		if want, judged := preflightOutcome(cfg, model, r); judged {
+			rec.Class("outcome-judged")
+			if got := len(acao) > 0; got != want {
+				return discf("reference outcome for this debug-off preflight is success=%v but the response says success=%v: %s", want, got, where)
+			}
+		} else {
+			rec.Class("outcome-not-judged")
+		}
 		if len(acao) == 0 {
 			// failing preflight: no Access-Control-* header, same status whatever the reason
 			for k := range resp.Hdr {
@@ -179,7 +229,7 @@ func c16Check(c C16Case, rec *Recorder) *Disc {
 func TestC16(t *testing.T) {
 	Prop[C16Case]{ID: "C16", Gen: c16Gen, Check: c16Check,
 		Rule: "generator: valid configuration extended with canary entries (an origin, a method, a request-header and a response-header name that no generated request mentions), debug off, x batch of 4-20 arbitrary preflight requests (any Origin incl. malformed/multi-valued, any ACRM, 0-3 ACRH lines, ACRPN). " +
-			"Oracle: no ACAO => no Access-Control-* header and the same status as a preflight from the null origin; ACAO => success status and only *, true, the configured max-age and tokens the request itself supplied (ACAH = * | documented *,authorization | the request's own lines), no canary substring anywhere; " +
+			"Oracle: ACAO present iff the reference outcome model (origin model + PNA switch + method rule + reference ACRH reader) says the preflight succeeds; no ACAO => no Access-Control-* header and the same status as a preflight from the null origin; ACAO => success status and only *, true, the configured max-age and tokens the request itself supplied (ACAH = * | documented *,authorization | the request's own lines), no canary substring anywhere; " +
 			"metamorphic: removing the canaries does not change the response (when the base keeps >=1 request-header entry). non-trivial = preflight from an allowed origin that fails at a later step, or succeeds with ACRH present; distinct by (configuration, request).",
 		Assumptions: []string{"a preflight from Origin: null is the reference failure for every configuration"}}.Run(t)
 }
